@@ -47,7 +47,7 @@ def run(ctx):
     ctx.rule('R3', 'unused dummy positions come from enumerate(routine.arguments) and are the indices removed at call sites')
     g = m.get_function(RC, 'get_used_or_defined_symbols')
     src = ast.unparse(g.node)
-    ok = 'routine.body.uses_symbols | routine.body.defines_symbols' in src and 'dataflow_analysis_attached(routine)' in src
+    ok = X.has(src, 'routine.body.uses_symbols | routine.body.defines_symbols') and X.has(src, 'dataflow_analysis_attached(routine)')
     (ctx.judge('R1', 'used set source') if ok else
      ctx.violation('R1', 'get_used_or_defined_symbols:source', g.where, 'the used/defined set is no longer the body\'s uses | defines'))
     sub = Ctx('C26', m, quiet=True)
